@@ -4,6 +4,8 @@ import LlgoVerif.Spec.Embed
 namespace LlgoVerif.Embed
 open LlgoVerif.Embed.Spec
 
+deriving instance DecidableEq for Except
+
 /-! ## byte-wise order -/
 
 theorem strLt_irrefl (a : Str) : strLt a a = false := by
@@ -841,7 +843,7 @@ theorem splitRun_arg_blank (out : List Str) (x : QArg) (hx : x.ok = true) (rest 
     splitRun out .between (x.render ++ 32 :: rest) = splitRun (out ++ [x.render]) .between rest := by
   cases x with
   | dq a =>
-    simp only [QArg.render, List.cons_append, List.append_assoc, List.singleton_append]
+    simp only [QArg.render, List.cons_append, List.append_assoc]
     rw [splitRun, step_between_dq]
     dsimp only
     rw [splitRun_dq]
@@ -850,7 +852,7 @@ theorem splitRun_arg_blank (out : List Str) (x : QArg) (hx : x.ok = true) (rest 
     simp
   | bq a =>
     simp only [QArg.ok, Bool.not_eq_true'] at hx
-    simp only [QArg.render, List.cons_append, List.append_assoc, List.singleton_append]
+    simp only [QArg.render, List.cons_append, List.append_assoc]
     rw [splitRun, step_between_bq]
     dsimp only
     rw [splitRun_bq _ _ _ _ hx]
